@@ -73,6 +73,7 @@ class Result:
         self.exhaustive = None
         self.shard = None
         self.nshards = None
+        self.sets = {}  # name -> set of hashables, merged by union (e.g. executed source lines)
         self.notes = []
         self.t0 = time.time()
 
@@ -118,6 +119,7 @@ class Result:
             "known": self.known, "known_desc": self.known_desc,
             "inconclusive": self.inconclusive, "assumptions": self.assumptions,
             "exhaustive": self.exhaustive, "notes": self.notes,
+            "sets": {k: sorted(v) for k, v in self.sets.items()},
         }
 
     def merge_dump(self, d):
@@ -148,6 +150,8 @@ class Result:
         for n in d.get("notes", []):
             if n not in self.notes:
                 self.notes.append(n)
+        for k, v in d.get("sets", {}).items():
+            self.sets.setdefault(k, set()).update(v)
 
 
 def write_replay(v, idx):
@@ -188,6 +192,8 @@ def finish(res, known_keys_hit=()):
         cov["exhaustive"] = bool(res.exhaustive)
     if res.notes:
         cov["notes"] = res.notes
+    if res.sets:
+        cov["reach"] = {k: sorted(v) for k, v in sorted(res.sets.items())}
     cov["known_findings_observed"] = {k: res.known.get(k, 1) for k in sorted(known_hit)}
     verdict = "held"
     if real_violations:
